@@ -55,6 +55,7 @@ func genC01(r *h.Rng, tier string, idx int) *h.Plan {
 	p := &h.Plan{Cfg: map[string]interface{}{}}
 	p.Cfg["state"] = r.Pick([]string{"indexed", "linear"})
 	p.Cfg["storage"] = "mem"
+	p.Cfg["battery_order"] = r.Pick([]string{"get-search-dispatch", "dispatch-search-get", "search-dispatch-get", "dispatch-get-search"})
 	nlocs := r.Weighted([]int{5, 3, 2}) + 1
 	locs := []string{"L0", "L1", "L2"}[:nlocs]
 	p.Cfg["locs"] = toIface(locs)
